@@ -41,6 +41,7 @@ trait SliceBuf {
     fn get_u8(&mut self) -> (r: u8)
         requires old(self).rest().len() >= 1
         ensures r == old(self).rest()[0], final(self).rest() == old(self).rest().subrange(1, old(self).rest().len() as int);
+    fn remaining(&self) -> (r: usize) ensures r == self.rest().len();
 }
 impl<'a> SliceBuf for &'a [u8] {
     spec fn rest(&self) -> Seq<u8> { (*self)@ }
@@ -48,4 +49,6 @@ impl<'a> SliceBuf for &'a [u8] {
     fn get_u64(&mut self) -> (r: u64) { unimplemented!() }
     #[verifier::external_body]
     fn get_u8(&mut self) -> (r: u8) { unimplemented!() }
+    #[verifier::external_body]
+    fn remaining(&self) -> (r: usize) { unimplemented!() }
 }
